@@ -133,6 +133,11 @@ def drive(pid: str, tier: str, seed: int, shards: int | None, keep: bool = False
             os.remove(out)
         cmd = [sys.executable, "-m", "vq.cli", "_shard", pid, "--tier", tier, "--seed", str(seed),
                "--shard", str(i), "--nshards", str(n), "--out", out]
+        if os.environ.get("VQ_COVER_DIR"):
+            # development aid (tools/cover.sh): line coverage of the tree under test by this check's workload, to find anchored code that no
+            # workload reaches; never set by the registered commands
+            cmd = [sys.executable, "-m", "coverage", "run", "--parallel-mode", "--data-file", os.path.join(os.environ["VQ_COVER_DIR"], f".coverage.{pid}"),
+                   "--source", os.path.join(os.environ.get("VQ_REPO", "/repo"), "quatica")] + cmd[1:]
         log = open(os.path.join(wd, f"shard-{tier}-{seed}-{i}.log"), "w")
         procs.append((subprocess.Popen(cmd, cwd=HERE, stdout=log, stderr=subprocess.STDOUT), out, log))
     dumps, problems = [], []
